@@ -1,5 +1,5 @@
 """C04: option-list bookkeeping. For each layer class that keeps an option vector and a cached serialized size, add_option and
-remove_option are extracted with Internals::find_option and run on an arbitrary list of up to 2 options that satisfies the
+remove_option are extracted with Internals::find_option and run on an arbitrary list of up to 3 options that satisfies the
 invariant `cached size == sum of the options' wire sizes`: the invariant is preserved, add appends, remove erases exactly the
 FIRST option of that type and keeps the others in order (look-ups return the first match)."""
 import os
@@ -7,14 +7,14 @@ import os
 T = '''#! unit: %(lc)s.option_list_bookkeeping
 #! property: C04
 #! mode: bounded
-#! bound: lists of at most 2 options before the operation (3 after an add); every option type, data size and order; --unwind 5 with unwinding assertions
+#! bound: lists of at most 3 options before the operation (4 after an add); every option type, data size and order; --unwind 6 with unwinding assertions
 #! pipeline: plain
 #! entry: h
-#! cbmc: --unwind 5 --unwinding-assertions
+#! cbmc: --unwind 6 --unwinding-assertions
 #! anchors: %(cls)s::add_option, %(cls)s::remove_option%(xanch)s (%(src)s), Internals::find_option (include/tins/pdu_option.h), PDUOption::option / data_size (include/tins/pdu_option.h)
-#! assumed: std::vector<option> as an array of at most 3 (type, sizes) entries with push_back / erase(position) (hand-written model); option payload bytes are not modelled (C12 covers PDUOption's storage)
+#! assumed: std::vector<option> as an array of at most 4 (type, sizes) entries with push_back / erase(position) (hand-written model); option payload bytes are not modelled (C12 covers PDUOption's storage)
 //@ include lib/opt.h
-#define NO 3
+#define NO 4
 typedef struct { size_t n; OPT e[NO]; } OPTV;
 static void OPTV_push(OPTV* v, const OPT* o) { __CPROVER_assert(v->n < NO, "model capacity"); v->e[v->n++] = *o; }
 static void OPTV_erase(OPTV* v, size_t pos) { __CPROVER_assert(pos < v->n, "std::vector::erase: a valid position"); for (size_t i = 0; i < NO - 1; ++i) if (i >= pos && i + 1 < v->n) v->e[i] = v->e[i + 1]; v->n--; }
@@ -30,15 +30,19 @@ mutant: iter->option\\(\\) == type ==> iter->option() != type
 static size_t %(cls)s_search_option_iterator(%(cls)s* this, int type) { return Internals_find_option(&this->options_, type); }   /* %(cls)s::search_option_iterator: return Internals::find_option<option>(options_, type) */
 %(xfuncs)s
 //@ func %(src)s %(cls)s::remove_option
-sig: static _Bool %(cls)s_remove_option(%(cls)s* this, int type)
+sig: static _Bool %(cls)s_remove_option(%(cls)s* this, int %(rmp)s)
 class: %(cls)s %(hdr)s
 members: options_ %(size_member)s
 rule: options_type::iterator iter = ==> size_t iter =
 rule: iter == this->options_\\.end\\(\\) ==> iter == this->options_.n
 rule?: iter->data_size\\(\\) ==> OPT_data_size(&this->options_.e[iter])
 rule?: iter->length_field\\(\\) ==> OPT_length_field(&this->options_.e[iter])
+rule?: std::swap\\(\\*iter, this->options_\\.back\\(\\)\\); ==> { OPT t_ = this->options_.e[iter]; this->options_.e[iter] = this->options_.e[this->options_.n - 1]; this->options_.e[this->options_.n - 1] = t_; }
 rule?: \\*iter\\b ==> &this->options_.e[iter]
-rule: this->options_\\.erase\\(iter\\); ==> OPTV_erase(&this->options_, iter);
+rule?: this->options_\\.erase\\(iter\\); ==> OPTV_erase(&this->options_, iter);
+## other ways a rewritten remove_option may drop the element (optional; what they do to the ORDER is what the harness checks)
+rule?: this->options_\\.pop_back\\(\\); ==> { __CPROVER_assert(this->options_.n > 0, "std::vector::pop_back on a non-empty vector"); this->options_.n--; }
+rule?: this->options_\\.end\\(\\) ==> this->options_.n
 %(rm_mutant)s
 //@ endfunc
 %(add_funcs)s
@@ -46,7 +50,7 @@ static uint32_t wire(const OPT* o) { %(wire)s }
 static uint32_t total(const OPTV* v) { uint32_t s = 0; for (size_t i = 0; i < NO; ++i) if (i < v->n) s += wire(&v->e[i]); return s; }
 void h(void) {
   %(cls)s* p = malloc(sizeof(%(cls)s)); OPT* o = malloc(sizeof(OPT)); __CPROVER_assume(p && o);
-  __CPROVER_assume(p->options_.n <= 2 && o->real_size_ <= 1024);
+  __CPROVER_assume(p->options_.n <= NO - 1 && o->real_size_ <= 1024);
   for (size_t i = 0; i < NO; ++i) __CPROVER_assume(p->options_.e[i].real_size_ <= 1024);
   __CPROVER_assume(p->%(size_member)s == %(base)s + total(&p->options_));           /* invariant: the cached size is the sum of the wire sizes */
   OPTV before = p->options_; uint32_t size0 = p->%(size_member)s;
@@ -54,15 +58,15 @@ void h(void) {
     %(add_call)s
     __CPROVER_assert(p->options_.n == before.n + 1 && p->options_.e[before.n].option_ == o->option_ && p->options_.e[before.n].real_size_ == o->real_size_, "add_option appends the option");
     __CPROVER_assert(p->%(size_member)s == size0 + wire(o) && p->%(size_member)s == %(base)s + total(&p->options_), "add_option keeps the cached size equal to the sum of the wire sizes");
-    for (size_t i = 0; i < 2; ++i) if (i < before.n) __CPROVER_assert(p->options_.e[i].option_ == before.e[i].option_ && p->options_.e[i].real_size_ == before.e[i].real_size_, "the options already present keep their place");
+    for (size_t i = 0; i < NO - 1; ++i) if (i < before.n) __CPROVER_assert(p->options_.e[i].option_ == before.e[i].option_ && p->options_.e[i].real_size_ == before.e[i].real_size_, "the options already present keep their place");
   } else {
     int W_type = nondet_int(); __CPROVER_assume(W_type >= 0 && W_type <= 65535);
-    size_t first = before.n; for (size_t i = 2; i-- > 0; ) if (i < before.n && before.e[i].option_ == W_type) first = i;
+    size_t first = before.n; for (size_t i = NO - 1; i-- > 0; ) if (i < before.n && before.e[i].option_ == W_type) first = i;
     _Bool r = %(cls)s_remove_option(p, W_type);
     __CPROVER_assert(r == (first < before.n), "remove_option reports whether an option of that type was present");
     if (first < before.n) {
       __CPROVER_assert(p->options_.n == before.n - 1, "exactly one option is removed");
-      for (size_t i = 0; i < 2; ++i) if (i + 1 < before.n + 0 && i < p->options_.n) __CPROVER_assert(p->options_.e[i].option_ == before.e[i < first ? i : i + 1].option_ && p->options_.e[i].real_size_ == before.e[i < first ? i : i + 1].real_size_, "it is the FIRST option of that type; the others keep their order");
+      for (size_t i = 0; i < NO - 1; ++i) if (i + 1 < before.n + 0 && i < p->options_.n) __CPROVER_assert(p->options_.e[i].option_ == before.e[i < first ? i : i + 1].option_ && p->options_.e[i].real_size_ == before.e[i < first ? i : i + 1].real_size_, "it is the FIRST option of that type; the others keep their order");
       __CPROVER_assert(p->%(size_member)s == size0 - wire(&before.e[first]), "the cached size shrinks by the removed option's wire size");
     } else __CPROVER_assert(p->options_.n == before.n && p->%(size_member)s == size0, "removing an absent type changes nothing");
     __CPROVER_assert(p->%(size_member)s == %(base)s + total(&p->options_), "remove_option keeps the cached size equal to the sum of the wire sizes");
@@ -107,6 +111,10 @@ TABLE = [
       wire='return ((o->option_ == 0 || o->option_ == 255) && o->real_size_ == 0) ? 1u : 2u + o->real_size_;   /* RFC 2132: PAD and END are single octets, others code + length + data; the cached size also counts the 4-octet magic cookie */',
       xanch=', DHCP::internal_add_option, is_single_octet_option, serialized_option_size', rm_mutant='',
       xfuncs='//@ enum include/tins/dhcp.h OptionTypes\n//@ func? src/dhcp.cpp is_single_octet_option\nsig: static _Bool is_single_octet_option(const OPT* opt)\nrule: opt\\.option\\(\\) ==> OPT_option(opt)\nrule: opt\\.data_size\\(\\) ==> OPT_data_size(opt)\nrule: DHCP::(PAD|END) ==> \\1\n//@ endfunc\n//@ func? src/dhcp.cpp serialized_option_size\nsig: static uint32_t serialized_option_size(const OPT* opt)\nrule: opt\\.data_size\\(\\) ==> OPT_data_size(opt)\n//@ endfunc'),
+dict(cls='TCP', src='src/tcp.cpp', hdr='include/tins/tcp.h', size_member='G_no_cached_size', base='0u', pn='opt', add=ADD_DIRECT,
+      wire='return 0u;   /* TCP keeps no cached option size (calculate_options_size walks the vector): only membership and ORDER are decided here */', xanch='', rm_mutant=''),
+ dict(cls='IP', src='src/ip.cpp', hdr='include/tins/ip.h', size_member='G_no_cached_size', base='0u', pn='opt', add=ADD_DIRECT, rmp='id',
+      wire='return 0u;   /* IP keeps no cached option size: only membership and ORDER are decided here */', xanch='', rm_mutant=''),
 ]
 
 
@@ -116,6 +124,7 @@ def generate(outdir, tier):
         d = dict(e)
         d['lc'] = e['cls'].lower()
         d.setdefault('xfuncs', '')
+        d.setdefault('rmp', 'type')
         d['add_funcs'] = e['add'] % d
         d['add_call'] = '%s_add_option(p, o);' % e['cls']
         text = T % d
